@@ -89,6 +89,15 @@ def apx_file(rng, n, atts, ill=None):
         x = ident(rng)
         if x not in names:
             names.append(x)
+    if ill == "badname":
+        # one name, used consistently, with a character outside [_A-Za-z] / [_A-Za-z\d]: the file is ill-formed
+        if not names:
+            names.append("a")
+        i = rng.randrange(len(names))
+        ch = rng.choice(["\u00e9", "\u00ba", "\u0436", "\u0301", "\u00aa", "\u2167", "\u203f", "\u200d", "\u00b5", "\u4e2d", "-", "'", "$"])
+        x = names[i]
+        k = rng.randrange(len(x) + 1)
+        names[i] = x[:k] + ch + x[k:]
     pad = lambda: rng.choice(["", "", " ", "\t", " "])
     term = lambda: rng.choice([".", ".", ".", ";", "x"])
     decl = list(names)
@@ -110,6 +119,8 @@ def apx_file(rng, n, atts, ill=None):
     expected = ("ok", order, exp_atts)
     if ill == "undeclared":
         alines.insert(rng.randrange(len(alines) + 1), "att(%s,zz_undeclared)." % (names[0] if names else "q"))
+        expected = ("err",)
+    elif ill == "badname":
         expected = ("err",)
     elif ill == "arg_after_att":
         if not alines:
@@ -168,7 +179,7 @@ class C13(Property):
     families = ["read"]
     rule = ("files generated from the two grammars with layout variation (comments, CR/LF, missing final newline, Unicode and ASCII blanks, signs, duplicate declarations), "
             "one ill-formedness class injected per ill-formed file (bad/missing header, index out of range, non-numeric, wrong arity, content after a blank line; "
-            "undeclared argument, argument after attack, syntax error), and byte-/token-level mutations of those files (incl. invalid UTF-8, NUL, lone CR); "
+            "undeclared argument, argument after attack, syntax error, a consistently used name with a non-ASCII letter, mark, numeral, connector or punctuation), and byte-/token-level mutations of those files (incl. invalid UTF-8, NUL, lone CR); "
             "declared sizes capped at 20000; compared: ok/err, the framework dump, read_arg_from_str; non-trivial = file with at least one attack line")
     assumptions = ["regex crate modelled by deterministic scanners; \\s/\\d tables regenerated from the vendored regex-syntax named in Cargo.lock",
                    "declared sizes above 20000 are excluded (the property excludes sizes that do not fit in memory)"]
@@ -177,7 +188,7 @@ class C13(Property):
         lines = []
         k = 4000 if tier == "quick" else 300000
         ill_i = [None, None, None, "bad_header", "missing_header", "range", "nonnumeric", "arity", "after_blank"]
-        ill_a = [None, None, None, "undeclared", "arg_after_att", "syntax"]
+        ill_a = [None, None, None, "undeclared", "arg_after_att", "syntax", "badname"]
         for i in range(k):
             n, atts = gen.random_framework(rng, 7)
             if i % 40 == 11:
